@@ -159,6 +159,10 @@ type ssConn struct {
 	receiveDecodedBuffer *bytes.Buffer
 	receiveState         ssRxState
 
+	// receiveBufferUnread is set when receiveBuffer holds data that trailed
+	// the handshake response and has not been examined by readPackets() yet.
+	receiveBufferUnread bool
+
 	txCrypto *ssCryptoState
 	rxCrypto *ssCryptoState
 
@@ -267,10 +271,17 @@ func (conn *ssConn) makePayloadPacket(w io.Writer, data []byte, padLen int) erro
 }
 
 func (conn *ssConn) readPackets() error {
-	// Consume and buffer up to 1 MSS worth of data.
-	var buf [maxSegmentLength]byte
-	rdLen, rdErr := conn.Conn.Read(buf[:])
-	conn.receiveBuffer.Write(buf[:rdLen])
+	// Consume and buffer up to 1 MSS worth of data, unless data that trailed
+	// the handshake response is still waiting to be processed.
+	var rdErr error
+	if conn.receiveBufferUnread {
+		conn.receiveBufferUnread = false
+	} else {
+		var buf [maxSegmentLength]byte
+		var rdLen int
+		rdLen, rdErr = conn.Conn.Read(buf[:])
+		conn.receiveBuffer.Write(buf[:rdLen])
+	}
 
 	// Process incoming packets incrementally.  conn.receiveState stores
 	// the results of partial processing.
@@ -444,6 +455,13 @@ handshakeUDH:
 		// Ok, done processing the handshake, discard the response, and do the
 		// key derivation based off the calculated shared secret.
 		_ = conn.receiveBuffer.Next(n)
+
+		// The server sends packets (the session ticket, the PRNG seed and
+		// possibly payload) right behind the response.  Whatever arrived in
+		// the same read must be processed before Read() blocks on the
+		// network again.
+		conn.receiveBufferUnread = conn.receiveBuffer.Len() > 0
+
 		err = conn.initCrypto(seed)
 		return err
 	}
@@ -514,7 +532,7 @@ func newScrambleSuitClientConn(conn net.Conn, tStore *ssTicketStore, ca *ssClien
 	dist := probdist.New(seed, minLenDistLength, maxLenDistLength, true)
 
 	// Allocate the client structure.
-	c := &ssConn{conn, false, dist, bytes.NewBuffer(nil), bytes.NewBuffer(nil), ssRxState{}, nil, nil, tStore}
+	c := &ssConn{conn, false, dist, bytes.NewBuffer(nil), bytes.NewBuffer(nil), ssRxState{}, false, nil, nil, tStore}
 
 	// Start the handshake timeout.
 	deadline := time.Now().Add(clientHandshakeTimeout)
